@@ -354,6 +354,16 @@ def check_symbolic(case):
             if not _close(ev(s), ref):
                 return _fail("symbolic-denotation:" + name, "%s on %r, %r (, %r) gives %r = %r, expected %r (env %r)"
                              % (name, x, y, z, s, ev(s), ref, env), feats)
+        # normalize(a, z) denotes a / z (the expression of a conditional probability); z ranges over arbitrary
+        # trees, in particular products and sums
+        for a_s, a_v, z_s, z_v in ((x, vx, z, vz), (y, vy, sr.times(x, z), vx * vz), (x, vx, sr.plus(y, z), vy + vz),
+                                   (z, vz, sr.times(sr.plus(x, y), sr.negate(z)), (vx + vy) * (1.0 - vz))):
+            if abs(z_v) > 1e-6:
+                s_n = sr.normalize(a_s, z_s)
+                feats.add("normalize")
+                if not _close(ev(s_n), a_v / z_v):
+                    return _fail("symbolic-denotation:normalize", "normalize(%r, %r) gives %r = %r, expected %r (env %r)"
+                                 % (a_s, z_s, s_n, ev(s_n), a_v / z_v, env), feats)
         bad = _laws(sr, x, y, z, lambda l, r: _close(ev(l), ev(r)), lambda s: "%r=%r" % (s, ev(s)))
         if bad:
             return _fail("law-violated:symbolic:" + bad[0],
